@@ -24,6 +24,8 @@ func init() {
 
 func runC13(p *eng.Prog, r *eng.Report, tier string) {
 	c := &cx{p, r, tier}
+	c11SplitString(c, "C13.33")
+	c13ErrorIsDirectChild(c, "C13.34")
 	// ---- C13.10 encoders emit field values verbatim --------------------------------
 	nLossy := lossyEmission(c, "C13.10", func(f *eng.Fn) bool { return strings.HasPrefix(f.Short, "stanza.") })
 	c.r.Floor("C13.10", "emitted texts in the stanza encoders", nLossy, 8)
@@ -664,4 +666,30 @@ func noLossyInDecoders(c *cx, id string, in func(f *eng.Fn) bool, floor int) {
 		}
 	}
 	c.r.Floor(id, "decoders and accessors scanned", n, floor)
+}
+
+// c13ErrorIsDirectChild (C13.34): the error of an error stanza is the child
+// called error in the stanza's namespace - a DIRECT child. An error reply
+// echoes the request, and the echoed payload may itself contain an element
+// called error (a forwarded bounce, a pubsub item): UnmarshalError decodes the
+// element that an iterator over the stanza's own children (xmlstream.Iter over
+// the reader it was given) reports, behind the test of that element's local
+// name, and decodes from that iterator's reader for the child. A walk over the
+// raw tokens with a depth counter that is consulted only for the end of the
+// stanza finds the nested element first.
+func c13ErrorIsDirectChild(c *cx, id string) {
+	f := c.fn(id, "stanza", "UnmarshalError")
+	if f == nil {
+		return
+	}
+	g := f.Graph()
+	n := 0
+	for _, cl := range f.Calls("encoding/xml.Decoder.Decode") {
+		n++
+		c.dom(id, f, cl, "decode of the error payload", []string{"eq(*xmlstream.Iter.Current[*xmlstream.NewIter(p0)]()#0.Name.Local,\"error\")"})
+		pt, _ := g.Where(cl)
+		src := f.Norm(cl, &pt)
+		c.r.Check(id, f, "source of the error payload", "P: the decoder reads the child the iterator reported (its start element and its reader)", cl.Pos(), strings.Contains(src, "xmlstream.Iter.Current[") && strings.Contains(src, "#1"), "decoder source is "+src)
+	}
+	c.r.Floor(id, "decodes in UnmarshalError", n, 1)
 }
